@@ -147,7 +147,7 @@ def run_matrix(pid: str, repo: str, rep, jobs: Optional[int] = None) -> dict:
     args = [(pid, repo, v, base_viol, base_code) for v in vs]
     if jobs > 1 and len(args) > 1:
         with mp.get_context("fork").Pool(min(jobs, len(args))) as pool:
-            results = pool.map(_run_one, args)
+            results = pool.map(_run_one, args, chunksize=1)   # variants differ a lot in cost (second opinions): no batching
     else:
         results = [_run_one(a) for a in args]
     summary = {"variants": len(vs), "breaking_expected": sum(1 for v in vs if v.expect == "fire"),
